@@ -68,6 +68,10 @@ def classify(events, pos):
         return "iscycle/%s" % ("self-loop" if len(ev["nodes"]) >= 2 and ev["nodes"][-1] == ev["nodes"][-2] else "longer-cycle" if ev["nodes"][-1] in ev["nodes"][:-1] else "no-cycle")
     if ev["e"] == "paths":
         return "filter/%s/workers-%s" % (ev["mode"], "1" if ev["workers"] == 1 else "n")
+    if ev["e"] == "counter":
+        return "counter/uint%d/%s/threads-%s" % (ev["width"], "told-not-at-maximum-after-maximum" if ev["late_false"] else "more-than-maximum-admitted" if ev["falses"] > min(ev["max"], ev["calls"]) else "fewer-than-maximum-admitted", "1" if ev["threads"] == 1 else "n")
+    if ev["e"] == "skiplimit":
+        return "skip-limit/%s/threads-%s" % ("visited-too-many" if ev["visited"] > (min(ev["limit"], max(ev["calls"] - ev["skip"], 0)) if ev["limit"] else max(ev["calls"] - ev["skip"], 0)) else "visited-too-few", "1" if ev["threads"] == 1 else "n")
     if ev["e"] == "seq":
         cyc = "cyclic" if any(e["s"] == e["t"] for e in ev["edges"]) or len(ev["edges"]) > len({(min(e["s"], e["t"]), max(e["s"], e["t"])) for e in ev["edges"]}) or ev["n"] <= len(ev["edges"]) else "acyclic"
         return "sequential/%s/%s/%s%s" % (ev["helper"], "panic" if ev["panic"] else "error" if ev["err"] else "wrong-result", cyc, "/skip-limit" if ev["skip"] or ev["limit"] else "")
@@ -180,7 +184,11 @@ def run(ctx):
     t = os.path.join(ctx.work, "seq.ndjson")
     ctx.vh(["trav", "seq", "--in", fgp, "--out", t, "--stride", "3" if quick else "1"], timeout=1500)
     n_seq = validate(ctx, t, "seq")
-    ctx.cov["runs"] = {"gate": n_gate, "free": n_free, "pipe": n_pipe, "filters": n_filters, "sequential": n_seq}
+    # the bounded counter and the skip / limit filter under real parallelism
+    t = os.path.join(ctx.work, "counter.ndjson")
+    ctx.vh(["trav", "counter", "--out", t, "--rounds", "300" if quick else "3000"], timeout=1500)
+    n_counter = validate(ctx, t, "counter")
+    ctx.cov["runs"] = {"gate": n_gate, "free": n_free, "pipe": n_pipe, "filters": n_filters, "sequential": n_seq, "counter": n_counter}
     nt = sum(1 for p in plans if p["n"] >= 3)
     ctx.cov["distinct_nontrivial"] = nt * 5
     ctx.cov["samples"].append({"plan": plans[len(plans) // 2]})
